@@ -72,6 +72,9 @@ fn main() {
     if args.len() < 2 {
         usage();
     }
+    // anyhow captures a backtrace per error when these are on: slow and noisy
+    std::env::set_var("RUST_BACKTRACE", "0");
+    std::env::set_var("RUST_LIB_BACKTRACE", "0");
     ovf::rt::install_panic_hook();
     match args[1].as_str() {
         "list" => {
